@@ -49,7 +49,9 @@ def analyse(ctx, prog, chk):
     nb = expsib.rule_loop_bits(ctx, prog, chk, fam + ebfam)
     npa = alias.rule(ctx, prog, chk, lambda fn: fn.rfile.startswith("src/eb/"), {}, points=True)[0]
     nr = alias.rule_out_rbw(ctx, prog, chk, lambda fn: fn.rfile.startswith("src/eb/"), re.compile(r"^eb_t\b"), exceptions=OUT_RBW_OK)
-    return {"inv": ni, "exp": len(fam), "alias": na, "const": nc, "sign": ns, "rbw": nr, "palias": npa, "bits": nb}
+    from .. import outfull
+    nf = outfull.rule(ctx, prog, chk, lambda fn: fn.rfile.startswith("src/fbx/"))
+    return {"inv": ni, "exp": len(fam), "alias": na, "const": nc, "sign": ns, "rbw": nr, "palias": npa, "bits": nb, "full": nf}
 
 
 def selfcheck(ctx, prog, chk):
@@ -66,6 +68,7 @@ def run(ctx, chk):
     chk.floor("LOOP-BITS", "bit scans of exponents and scalars", c["bits"], 5)
     chk.floor("SM-SIGN", "scalar parameters of the binary-curve multiplication siblings", c["sign"], 25)
     chk.floor("OUT-RBW", "output points of binary-curve functions that also take an input point", c["rbw"], 40)
+    chk.floor("OUT-FULL", "quadratic-extension outputs written component by component", c["full"], 4)
     if chk.tier == "thorough":
         # the other binary fields (their trinomial/pentanomial-specific code and curves are compiled only there)
         from .. import facts
